@@ -51,9 +51,9 @@ func runC03(c *an.Ctx) string {
 	r024WireKeys(c, "R03.4")
 	r035ResponseData(c)
 	r0811NestedView(c, "R08.11") // shared with C08: a nested result projected with an empty or inherited view name leaves it unprojected and the generated marshalling dereferences absent fields: the result does not arrive
-	r15ResponseDecoder(c) // shared with C15 (rule id R15.1): the client picks the codec of the announced type
-	r15TextCodecs(c)      // shared with C15 (rule id R15.5): text bodies are decoded whole or not at all
-	r15ResponseEncoder(c) // shared with C15 (rule ids R15.1-R15.3): the server encodes with the codec of the type it announces
+	r15ResponseDecoder(c)        // shared with C15 (rule id R15.1): the client picks the codec of the announced type
+	r15TextCodecs(c)             // shared with C15 (rule id R15.5): text bodies are decoded whole or not at all
+	r15ResponseEncoder(c)        // shared with C15 (rule ids R15.1-R15.3): the server encodes with the codec of the type it announces
 	tplRangeIndexRule(c, "R03.5", "http/codegen/templates")
 	encoderNilGuards(c, "R03.6", "http/codegen/templates/response_encoder.go.tpl", "http/codegen/templates/partial/response.go.tpl")
 	r175PatternCache(c) // shared with C17 (rule id R17.5): the client validates results with the pattern it was given, not with one cached under another key
